@@ -34,6 +34,7 @@ class Effects:
         self._build_callgraph()
         self._mut = None
         self._ret_alias = None
+        self._deep = {}
 
     # ------------------------------------------------------------------ events
     def events(self, q: str) -> list:
@@ -42,6 +43,35 @@ class Effects:
 
     def own_events(self, q: str) -> list:
         return [e for e in self.summ[q].events if not e.ctx]
+
+    def deep(self, q: str, binding=None):
+        """Summary of q with the *private helpers of its own module* expanded at their call sites
+        (so that extracting a helper, or inlining one, does not change what the rules see)."""
+        key = (q, tuple(sorted((binding or {}).items())))
+        if key not in self._deep:
+            f = self.p.funcs[q]
+            mod = f.module.name
+
+            def inline(cq, depth):
+                cf = self.p.funcs.get(cq)
+                return cf is not None and cf.module.name == mod and cf.name.startswith('_') \
+                    and not cf.name.startswith('__') and cq != q
+            ex = Executor(self.p, inline=inline, max_depth=7)
+            self._deep[key] = (ex, ex.run(f, binding or {}))
+        return self._deep[key]
+
+    def deep_events(self, q: str, binding=None) -> list:
+        """Events of q and of the private same-module helpers it calls (property getters excluded),
+        in execution order."""
+        ex, s = self.deep(q, binding)
+        out = []
+        for e in s.events:
+            if all(not self.p.funcs[fr.callee].is_property for fr in e.ctx if fr.callee in self.p.funcs):
+                out.append(e)
+        return out
+
+    def deep_loops(self, q: str, binding=None) -> dict:
+        return self.deep(q, binding)[0].loops
 
     def all_events(self):
         for q in self.summ:
